@@ -44,8 +44,11 @@ def postingEqv (a b : Posting) : Bool :=
     optEqv assertionEqv a.assertion b.assertion && trimB a.comment == trimB b.comment &&
     listEqv tagEqv a.tags b.tags
 
+/- A code that is not closed on its line (`(chk `) runs to the end of the line, trailing blanks
+   included; the property lets every line that is not a posting lose its trailing blanks, so the
+   code is compared without them (like comments and tag values). -/
 def txEqv (a b : Transaction) : Bool :=
-  dateEqv a.date b.date && optEqv dateEqv a.date2 b.date2 && a.status == b.status && a.code == b.code &&
+  dateEqv a.date b.date && optEqv dateEqv a.date2 b.date2 && a.status == b.status && trimB a.code == trimB b.code &&
     a.description == b.description && a.payee == b.payee && a.note == b.note &&
     listEqv postingEqv a.postings b.postings && listEqv tagEqv a.tags b.tags &&
     listEqv commentEqv a.comments b.comments
